@@ -334,6 +334,19 @@ func init() {
 		fails[e.concreteInt(args[0], "request index")] = true
 		return nil, false
 	})
+	reg("NCSHold", func(e *Exec, fv *FuncV, args []Value, cc *ssa.CallCommon) (Value, bool) {
+		holds, _ := e.ext["ncs.hold"].(map[int]bool)
+		if holds == nil {
+			holds = map[int]bool{}
+			e.ext["ncs.hold"] = holds
+		}
+		holds[e.concreteInt(args[0], "request index")] = true
+		return nil, false
+	})
+	reg("NCSRelease", func(e *Exec, fv *FuncV, args []Value, cc *ssa.CallCommon) (Value, bool) {
+		e.ext["ncs.released"] = true
+		return nil, false
+	})
 	reg("Preempt", func(e *Exec, fv *FuncV, args []Value, cc *ssa.CallCommon) (Value, bool) {
 		e.ext["par.maxpre"] = e.concreteInt(args[0], "preemption bound")
 		return nil, false
